@@ -39,8 +39,8 @@ def write_replay_script(rec, path):
         f.write("#root %s\n" % s["root_fen"])
         for l in s["script"]:
             f.write(l + "\n")
-        f.write("#stop_at %d\n#stop_at_first %d\n#clock %d\n#depth_limit %d\n#finite %d\n#label %s\n" % (
-            s["stop_at"], s["stop_at_first"], s["clock_step_ms"], s["depth_limit"], 1 if s["finite"] else 0, s["label"]))
+        f.write("#stop_at %d\n#stop_at_first %d\n#clock %d\n#horizon %d\n#depth_limit %d\n#finite %d\n#label %s\n" % (
+            s["stop_at"], s["stop_at_first"], s["clock_step_ms"], s.get("horizon", 3000000), s["depth_limit"], 1 if s["finite"] else 0, s["label"]))
         for m in s.get("searchmoves", []):
             f.write("#searchmove %s\n" % m)
         if "poison" in s:
